@@ -59,9 +59,11 @@ class ClassRef:
 
 
 class FuncRef:
-    def __init__(self, fn: FuncInfo, bound_self: Any = None) -> None:
+    def __init__(self, fn: FuncInfo, bound_self: Any = None, closure: Optional[Dict[str, Any]] = None) -> None:
         self.fn = fn
         self.bound_self = bound_self
+        self.closure = closure  # the defining environment of a nested function (read at call time)
+        self.attrs: Dict[str, Any] = {}
 
 
 class Instance:
@@ -73,6 +75,12 @@ class Instance:
 
     def __repr__(self) -> str:
         return f"{self.cls.name}({', '.join([repr(a) for a in self.args] + [f'{k}={v!r}' for k, v in self.kwargs.items()])})"
+
+    def __lt__(self, other: object) -> bool:
+        # tuple-like objects (NamedTuple instances such as VarBind) order like the tuple of their fields
+        if isinstance(other, Instance) and "__items__" in self.attrs and "__items__" in other.attrs:
+            return list(self.attrs["__items__"]) < list(other.attrs["__items__"])
+        return NotImplemented  # type: ignore[return-value]
 
 
 class OidVal(tuple):
@@ -153,15 +161,20 @@ class MiniEval:
     def __init__(self, ctx, construct: Optional[Callable[[ClassInfo, List[Any], Dict[str, Any]], Any]] = None, max_steps: int = 20000, run_init: bool = False, externals: Optional[Dict[str, Callable[..., Any]]] = None) -> None:
         self.ctx = ctx
         self.externals = externals or {}  # function key -> model (args, kwargs) -> value, for library calls such as x690.decode
+        self._yields: List[List[Any]] = []
         self.steps = 0
         self.max_steps = max_steps
         self.construct = construct
         self.run_init = run_init
 
     # ------------------------------------------------------------------ API
-    def call_function(self, fn: FuncInfo, args: List[Any], kwargs: Optional[Dict[str, Any]] = None, depth: int = 0) -> Any:
-        """Value returned by *fn* for the given argument values (``Raised`` propagates)."""
-        if depth > 6:
+    def call_function(self, fn: FuncInfo, args: List[Any], kwargs: Optional[Dict[str, Any]] = None, depth: int = 0, closure: Optional[Dict[str, Any]] = None) -> Any:
+        """
+        Value returned by *fn* for the given argument values (``Raised`` propagates).  Coroutines are evaluated at
+        once (``await`` yields the value); a generator function returns the list of what it yields - when it raises
+        after having yielded, the exception carries that list as ``partial``.
+        """
+        if depth > 8:
             raise Unevaluable("call depth")
         kwargs = dict(kwargs or {})
         node = fn.node
@@ -169,7 +182,9 @@ class MiniEval:
         if a.kwarg:
             raise Unevaluable(f"{fn.qualname}: **kwargs")
         names = [x.arg for x in a.posonlyargs + a.args]
-        env: Dict[str, Any] = {}
+        env: Dict[str, Any] = dict(closure) if closure else {}
+        for name in names + [x.arg for x in a.kwonlyargs]:
+            env.pop(name, None)
         for name, val in zip(names, args):
             env[name] = val
         if a.vararg:
@@ -195,10 +210,33 @@ class MiniEval:
                 raise Unevaluable(f"{fn.qualname}: argument {name} missing")
         if kwargs:
             raise Unevaluable(f"{fn.qualname}: unexpected keyword {list(kwargs)}")
+        from .universe import own_nodes
+
+        is_gen = any(isinstance(n, (ast.Yield, ast.YieldFrom)) for n in own_nodes(node))
+        if is_gen:
+            self._yields.append([])
         try:
-            self.exec_block(fn, docstring_free_body(node), env, depth)
+            try:
+                self.exec_block(fn, docstring_free_body(node), env, depth)
+            finally:
+                if closure is not None:
+                    for name in env.get("__nonlocal__", ()):  # cells shared with the defining function
+                        if name in env:
+                            closure[name] = env[name]
         except _Return as ret:
+            if is_gen:
+                return self._yields.pop()
             return ret.value
+        except Raised as exc:
+            if is_gen:
+                exc.partial = self._yields.pop()  # type: ignore[attr-defined]
+            raise
+        except Exception:
+            if is_gen:
+                self._yields.pop()
+            raise
+        if is_gen:
+            return self._yields.pop()
         return None
 
     # ----------------------------------------------------------- statements
@@ -229,7 +267,7 @@ class MiniEval:
                 raise Unevaluable("subscript store")
         elif isinstance(tgt, ast.Attribute):
             base = self.eval(fn, tgt.value, env, depth)
-            if isinstance(base, Instance):
+            if isinstance(base, (Instance, FuncRef)):
                 base.attrs[tgt.attr] = val
             else:
                 raise Unevaluable("attribute store")
@@ -237,6 +275,11 @@ class MiniEval:
             raise Unevaluable(f"assignment target {type(tgt).__name__}")
 
     def exec_stmt(self, fn: FuncInfo, stmt: ast.stmt, env: Dict[str, Any], depth: int) -> None:
+        if isinstance(stmt, ast.Expr) and isinstance(stmt.value, ast.Yield):
+            if not self._yields:
+                raise Unevaluable("yield outside a generator call")
+            self._yields[-1].append(self.eval(fn, stmt.value.value, env, depth) if stmt.value.value is not None else None)
+            return
         if isinstance(stmt, ast.Expr):
             if isinstance(stmt.value, ast.Constant):
                 return
@@ -269,7 +312,7 @@ class MiniEval:
         if isinstance(stmt, ast.If):
             self.exec_block(fn, stmt.body if self.truth(self.eval(fn, stmt.test, env, depth)) else stmt.orelse, env, depth)
             return
-        if isinstance(stmt, ast.For):
+        if isinstance(stmt, (ast.For, ast.AsyncFor)):
             items = self.iterate(self.eval(fn, stmt.iter, env, depth))
             broke = False
             for item in items:
@@ -306,7 +349,10 @@ class MiniEval:
             raise _Break()
         if isinstance(stmt, ast.Continue):
             raise _Continue()
-        if isinstance(stmt, (ast.Pass, ast.Global, ast.Nonlocal, ast.Import, ast.ImportFrom)):
+        if isinstance(stmt, ast.Nonlocal):
+            env.setdefault("__nonlocal__", set()).update(stmt.names)
+            return
+        if isinstance(stmt, (ast.Pass, ast.Global, ast.Import, ast.ImportFrom)):
             return
         if isinstance(stmt, ast.Assert):
             return
@@ -329,7 +375,7 @@ class MiniEval:
             nested = fn.nested.get(stmt.name)
             if nested is None:
                 raise Unevaluable("nested function")
-            env[stmt.name] = FuncRef(nested)
+            env[stmt.name] = FuncRef(nested, closure=env)
             return
         raise Unevaluable(f"statement {type(stmt).__name__}")
 
@@ -489,10 +535,53 @@ class MiniEval:
         if isinstance(expr, ast.Call):
             return self.call(fn, expr, env, depth)
         if isinstance(expr, ast.Lambda):
-            raise Unevaluable("lambda")
+            self._lambda_fn = fn
+            return ("lambda", (expr, env))
         if isinstance(expr, ast.Await):
-            raise Unevaluable("await")
+            return self.eval(fn, expr.value, env, depth)  # coroutines are evaluated when they are called
         raise Unevaluable(f"expression {type(expr).__name__}")
+
+    def apply(self, fobj: Any, args: List[Any], depth: int) -> Any:
+        if isinstance(fobj, FuncRef):
+            lead = [fobj.bound_self] if isinstance(fobj.bound_self, Instance) and fobj.fn.cls is not None else []
+            return self.call_function(fobj.fn, lead + args, {}, depth + 1, closure=fobj.closure)
+        if isinstance(fobj, tuple) and len(fobj) == 2 and fobj[0] == "lambda":
+            lam, lenv = fobj[1]
+            inner = dict(lenv)
+            for a, v in zip(lam.args.args, args):
+                inner[a.arg] = v
+            return self.eval(self._lambda_fn, lam.body, inner, depth + 1)
+        if fobj in (str, int, bool, len, tuple, list):
+            return fobj(*args)
+        raise Unevaluable("call of an opaque function object")
+
+    def itertools_model(self, fn: FuncInfo, name: str, args: List[Any], kwargs: Dict[str, Any], depth: int) -> Any:
+        if name == "chain":
+            out: List[Any] = []
+            for a in args:
+                out += self.iterate(a)
+            return out
+        if name == "chain.from_iterable":
+            out = []
+            for a in self.iterate(args[0]):
+                out += self.iterate(a)
+            return out
+        if name in ("takewhile", "dropwhile"):
+            items = self.iterate(args[1])
+            k = 0
+            while k < len(items) and self.truth(self.apply(args[0], [items[k]], depth)):
+                k += 1
+            return items[:k] if name == "takewhile" else items[k:]
+        if name == "islice":
+            items = self.iterate(args[0])
+            return items[slice(*args[1:])]
+        if name == "zip_longest":
+            import itertools
+
+            return [tuple(t) for t in itertools.zip_longest(*[self.iterate(a) for a in args], fillvalue=kwargs.get("fillvalue"))]
+        if name == "starmap":
+            return [self.apply(args[0], list(self.iterate(t)), depth) for t in self.iterate(args[1])]
+        raise Unevaluable(f"itertools.{name}")
 
     def comprehension(self, fn: FuncInfo, expr: ast.AST, env: Dict[str, Any], depth: int) -> Any:
         inner = dict(env)
@@ -527,7 +616,10 @@ class MiniEval:
             return FuncRef(got.target)
         if got is not None and got.kind == "value" and got.module is not None:
             pseudo = FuncInfo(got.module, "<module>", fn.node)
-            return self.eval(pseudo, got.target, {}, 0)
+            try:
+                return self.eval(pseudo, got.target, {}, 0)
+            except Unevaluable:
+                return Sym(f"module-value:{expr.id}")  # a logger, a TypeVar, ...
         if got is not None and got.kind not in ("func", "value", "class"):
             return Sym(f"ext:{expr.id}")  # a name imported from outside the analysed universe (datetime.timedelta, ...)
         cur = fn.parent
@@ -591,6 +683,12 @@ class MiniEval:
                     return self.call_function(meth, [base], {}, depth + 1)
                 return FuncRef(meth, bound_self=base)
             raise Unevaluable(f"attribute {expr.attr} of {base.cls.name} instance")
+        if isinstance(base, FuncRef):
+            if expr.attr in base.attrs:
+                return base.attrs[expr.attr]
+            if expr.attr in ("__name__", "__qualname__"):
+                return base.fn.name
+            raise Unevaluable(f"function attribute {expr.attr}")
         if isinstance(base, Sym):
             return Sym(f"{base.name}.{expr.attr}")
         if isinstance(base, OidVal):
@@ -630,6 +728,8 @@ class MiniEval:
                 kwargs.update(val)
             else:
                 kwargs[kw.arg] = self.eval(fn, kw.value, env, depth)
+        if isinstance(func, ast.Attribute) and func.attr == "isEnabledFor":
+            return False  # diagnostics are off in the modelled execution
         # X.__subclasses__()
         if isinstance(func, ast.Attribute) and func.attr == "__subclasses__":
             base = self.eval(fn, func.value, env, depth)
@@ -645,10 +745,21 @@ class MiniEval:
             name = func.id
             simple: Dict[str, Callable[..., Any]] = {
                 "len": len, "tuple": tuple, "list": list, "dict": dict, "set": set, "frozenset": frozenset, "sorted": sorted, "min": min, "max": max, "sum": sum,
-                "slice": slice, "abs": abs, "int": int, "bool": bool, "str": str, "bytes": bytes, "range": range, "divmod": divmod, "pow": pow, "any": any, "all": all, "repr": repr,
+                "slice": slice, "OrderedDict": dict, "abs": abs, "int": int, "bool": bool, "str": str, "bytes": bytes, "range": range, "divmod": divmod, "pow": pow, "any": any, "all": all, "repr": repr,
             }
             if name == "cast" and len(args) == 2:
                 return args[1]  # typing.cast has no runtime effect
+            if name in ("dict", "OrderedDict") and len(args) == 1 and not isinstance(args[0], dict):
+                pairs = []
+                for item in self.iterate(args[0]):
+                    if isinstance(item, Instance) and "__items__" in item.attrs:
+                        item = tuple(item.attrs["__items__"])
+                    if not (isinstance(item, (tuple, list)) and len(item) == 2):
+                        raise Unevaluable("dict() of something else than pairs")
+                    pairs.append((item[0], item[1]))
+                out_d = dict(pairs)
+                out_d.update(kwargs)
+                return out_d
             if name == "map" and len(args) == 2:
                 fobj = args[0]
                 items = self.iterate(args[1])
@@ -656,9 +767,27 @@ class MiniEval:
                     return [str(i) for i in items]
                 if fobj is int:
                     return [int(i) for i in items]
-                if isinstance(fobj, FuncRef):
-                    return [self.call_function(fobj.fn, [i], {}, depth + 1) for i in items]
-                raise Unevaluable("map() with an opaque function")
+                return [self.apply(fobj, [i], depth) for i in items]
+            if name in ("sorted", "min", "max") and "key" in kwargs and len(args) == 1:
+                items = self.iterate(args[0])
+                keyed = [(self.apply(kwargs["key"], [i], depth), n_, i) for n_, i in enumerate(items)]
+                try:
+                    if name == "sorted":
+                        keyed.sort(key=lambda t: (t[0], t[1]), reverse=bool(kwargs.get("reverse", False)))
+                        return [t[2] for t in keyed]
+                    pick = (min if name == "min" else max)(keyed, key=lambda t: t[0])
+                    return pick[2]
+                except Exception as exc:  # pylint: disable=broad-except
+                    raise Unevaluable(f"{name}(key=..): {exc}") from exc
+            if name == "next" and len(args) in (1, 2):
+                items = self.iterate(args[0])  # generator expressions are materialised lists here: next() of a fresh one
+                if items:
+                    return items[0]
+                if len(args) == 2:
+                    return args[1]
+                raise Raised(Sym("StopIteration"))
+            if name == "iter" and len(args) == 1:
+                return self.iterate(args[0])
             if name == "reversed" and len(args) == 1:
                 return list(reversed(self.iterate(args[0])))
             if name == "enumerate":
@@ -704,6 +833,8 @@ class MiniEval:
                 except Exception as exc:  # pylint: disable=broad-except
                     raise Unevaluable(f"{name}(): {exc}") from exc
         target = self.eval(fn, func, env, depth)
+        if isinstance(target, tuple) and len(target) == 2 and target[0] == "lambda":
+            return self.apply(target, args, depth)
         if isinstance(target, tuple) and len(target) == 3 and target[0] == "super-method":
             _, obj, meth = target
             if isinstance(obj, Instance):
@@ -765,6 +896,8 @@ class MiniEval:
                     inst.attrs[name] = val
                 for name, val in kwargs.items():
                     inst.attrs[name] = val
+                if any(ast.unparse(b).split(".")[-1] == "NamedTuple" for klass in self.ctx.r.mro(target.cls) for b in klass.node.bases):
+                    inst.attrs["__items__"] = [inst.attrs.get(f) for f in fields]
             elif self.run_init and not init.module.external:
                 self.call_function(init, [inst] + args, kwargs, depth + 1)
             return inst
@@ -786,7 +919,9 @@ class MiniEval:
                     call_args = [target.bound_self] + call_args
                 elif isinstance(target.bound_self, ClassRef):
                     pass  # Class.method(instance, ...) style: arguments as given
-            return self.call_function(callee, call_args, kwargs, depth + 1)
+            return self.call_function(callee, call_args, kwargs, depth + 1, closure=target.closure)
+        if isinstance(target, Sym) and target.name in ("ext:takewhile", "ext:dropwhile", "ext:chain", "ext:chain.from_iterable", "ext:islice", "ext:zip_longest", "ext:starmap"):
+            return self.itertools_model(fn, target.name[4:], args, kwargs, depth)
         if isinstance(target, Sym):
             return Sym(f"{target.name}(..)")
         raise Unevaluable(f"call of {type(target).__name__}")
